@@ -519,9 +519,55 @@ fn cli_home_freshness(env: &vsim::clisim::run::Env, tree: &vsim::clisim::types::
     Ok(None)
 }
 
+/// What a *killed* invocation leaves next to the files (a staging file, a lock, a journal) must
+/// not change what a later invocation does: invocation 1 is cut short by a crash fault;
+/// invocation 2 is then run (i) on the tree as invocation 1 left it and (ii) on the same tree
+/// without the hidden entries invocation 1 created. Exit status, stdout and the resulting tree
+/// (those hidden entries aside) must be identical. HOME is fresh for every run.
+fn cli_leftover_freshness(env: &vsim::clisim::run::Env, tree: &vsim::clisim::types::Tree, inv1: &Inv, inv2: &Inv) -> Result<Option<String>, String> {
+    use vsim::clisim::world::{materialise, snapshot, snapshot_tree};
+    let wipe_home = || {
+        let _ = std::fs::remove_dir_all(env.home());
+        let _ = std::fs::create_dir_all(env.home());
+    };
+    let hidden_new = |k: &String| !tree.contains_key(k) && k.split('/').any(|c| c.starts_with('.'));
+    materialise(&env.root(), tree).map_err(|e| e.to_string())?;
+    wipe_home();
+    let _ = vsim::clisim::run::run_inv(env, inv1).map_err(|e| e.to_string())?;
+    let t1 = snapshot_tree(&snapshot(&env.root()).map_err(|e| e.to_string())?);
+    if !t1.keys().any(|k| hidden_new(k)) {
+        return Ok(None); // nothing was left behind
+    }
+    wipe_home();
+    let oa = vsim::clisim::run::run_inv(env, inv2).map_err(|e| e.to_string())?;
+    let mut ta = snapshot_tree(&snapshot(&env.root()).map_err(|e| e.to_string())?);
+    let mut t1_clean = t1.clone();
+    t1_clean.retain(|k, _| !hidden_new(k));
+    materialise(&env.root(), &t1_clean).map_err(|e| e.to_string())?;
+    wipe_home();
+    let ob = vsim::clisim::run::run_inv(env, inv2).map_err(|e| e.to_string())?;
+    let mut tb = snapshot_tree(&snapshot(&env.root()).map_err(|e| e.to_string())?);
+    if oa.signal.is_some() || ob.signal.is_some() {
+        return Ok(None);
+    }
+    ta.retain(|k, _| !hidden_new(k));
+    tb.retain(|k, _| !hidden_new(k));
+    if ta != tb {
+        let k = ta.iter().find(|(k, v)| tb.get(*k) != Some(*v)).map(|(k, _)| k.clone()).or_else(|| tb.keys().find(|k| !ta.contains_key(*k)).cloned()).unwrap_or_default();
+        return Ok(Some(format!("the same invocation leaves a different tree depending on hidden entries that an earlier, killed invocation left behind (first differing path {:?}; earlier invocation: typstyle {} with plan {:?})", k, vsim::util::excerpt(inv1.argv("{ROOT}").join(" ").as_bytes(), 200), inv1.plan.iter().map(|r| r.render()).collect::<Vec<_>>())));
+    }
+    if oa.exit != ob.exit {
+        return Ok(Some(format!("the same invocation exits {:?} with the hidden entries an earlier, killed invocation left behind and {:?} without them", oa.exit, ob.exit)));
+    }
+    Ok(None)
+}
+
 fn cli_replay_differs(env: &vsim::clisim::run::Env, r: &CliWorldsReplay) -> Result<Option<String>, String> {
     if r.mode == "home-freshness" {
         return cli_home_freshness(env, &r.tree, &r.world_a, &r.world_b);
+    }
+    if r.mode == "leftover-freshness" {
+        return cli_leftover_freshness(env, &r.tree, &r.world_a, &r.world_b);
     }
     if r.mode == "batch-vs-singles" {
         cli_batch_vs_singles(env, &r.tree, &r.world_a)
@@ -639,13 +685,25 @@ fn cli_worlds_lane(base: u64, n: u64, workers: usize) -> CliLane {
                     if inv2.cwd != "." && !matches!(case.tree.get(&inv2.cwd), Some(vsim::clisim::types::Node::Dir)) {
                         inv2.cwd = ".".into();
                     }
-                    match cli_home_freshness(&env, &case.tree, &inv1, &inv2) {
+                    // every other one of these: a *killed* write-mode invocation first, then the
+                    // same files under another style - does what the first left behind matter?
+                    let leftover = i % 6 == 5 && matches!(first.shape, Shape::Files { mode: Mode::Inplace, .. } | Shape::FormatAll { check: false, .. });
+                    if leftover {
+                        inv1 = first.clone();
+                        inv1.plan = vec![vsim::clisim::types::Rule::new("crash", "**", frng.range(2, 40), 0)];
+                        inv2 = first.clone();
+                        inv2.plan.clear();
+                        inv2.readdir = "sorted".into();
+                        inv2.style.column = Some(if inv1.style.cfg().column >= 60 { *frng.pick(&[0usize, 20, 30]) } else { *frng.pick(&[120usize, 200, 400]) });
+                    }
+                    let (res, mode) = if leftover { (cli_leftover_freshness(&env, &case.tree, &inv1, &inv2), "leftover-freshness") } else { (cli_home_freshness(&env, &case.tree, &inv1, &inv2), "home-freshness") };
+                    match res {
                         Ok(res) => {
                             let mut o = out.lock().unwrap();
                             o.home_pairs += 1;
                             if let Some(msg) = res {
                                 if o.found.is_none() {
-                                    o.found = Some(CliWorldsReplay { engine: "cliworlds".into(), property: "C17".into(), tree: case.tree.clone(), world_a: inv1, world_b: inv2, mode: "home-freshness".into(), message: msg });
+                                    o.found = Some(CliWorldsReplay { engine: "cliworlds".into(), property: "C17".into(), tree: case.tree.clone(), world_a: inv1, world_b: inv2, mode: mode.into(), message: msg });
                                 }
                             }
                         }
